@@ -982,6 +982,7 @@ func userUpdater() {
 		}
 
 		if len(dbPending) > 0 {
+			verifEvent("users.io.start")
 			go func() {
 				dbUnread, err := store.Users.GetUnreadCount(dbPending...)
 				if err != nil {
@@ -997,6 +998,7 @@ func userUpdater() {
 	for {
 		select {
 		case io := <-ioDone:
+			verifEvent("users.io.recv")
 			// Unread counter read has completed.
 			for uid, count := range io.counts {
 				updateBuf, ok := perUserBuffers[uid]
@@ -1057,6 +1059,7 @@ func userUpdater() {
 				push.Push(rcpt)
 			}
 		case upd := <-globals.usersUpdate:
+			verifEvent("users.upd.recv")
 			if globals.shuttingDown {
 				// If shutdown is in progress we don't care to process anything.
 				// ignore all calls.
